@@ -18,7 +18,7 @@ TRUSTED = ['cbmc 6.11.0 C++ front end and SAT back end',
            'range-for / auto / delete / io::stdout rewrite rules (must-fire)']
 ASSUMPTIONS = ['the comparator\'s tie-break on object addresses is replaced by a tie-break on ghost object ids (must-fire rule): any total order on distinct objects is a valid implementation choice',
                'histories: <= 3 reservations + optional slice + releases, then one operation (bounded); request sizes < 2^8 (quick) / 2^9 (thorough); <= 2 reservations (quick) / <= 3 (thorough) before the operation',
-               'alignments enumerated: quick {128 -> 8}; thorough {128->8, 4096->128, 8->128}',
+               'alignments enumerated: quick {128 -> 8}; thorough {128->8, 4096->128}; the reserve operation always starts from <= 2 reservations (its group is the most expensive)',
                'virtual calls resolve to the Serial-mode pool']
 NOT_REACHED = ['memoryPool handle layer (one-line forwarders, covered for assertInitialized by C01 family step)',
                'longer histories, more than 4 live reservations', 'byte contents beyond one tracked byte per run (any byte: it is symbolic)']
@@ -34,7 +34,7 @@ def build(ctx, prop=None, only_ops=None, only_aligns=None):
     if ctx.tier == 'quick':
         aligns = [(128, 8)]
     else:
-        aligns = [(128, 8), (4096, 128), (8, 128)]
+        aligns = [(128, 8), (4096, 128)]
     bits = 8 if ctx.tier == 'quick' else 9
     maxn = 2 if ctx.tier == 'quick' else 3
     opn = ['reserve', 'resize', 'shrinkToFit', 'setAlignment', 'release', 'slice']
@@ -48,10 +48,10 @@ def build(ctx, prop=None, only_ops=None, only_aligns=None):
             groups.append(Group(
                 name='pool/%s/align=%d%s' % (name, a, ('->%d' % a2) if name == 'setAlignment' else ''),
                 sources={'pool.cpp': src}, entry='h_pool_op', lang='cpp', unwind=7 if ctx.tier == 'quick' else 8,
-                defines=['ALIGN=%d' % a, 'ALIGN2=%d' % a2, 'SZ_BITS=%d' % bits, 'VERIF_OP=%d' % op, 'MAXN=%d' % maxn, 'CHECK_' + prop],
+                defines=['ALIGN=%d' % a, 'ALIGN2=%d' % a2, 'SZ_BITS=%d' % bits, 'VERIF_OP=%d' % op, 'MAXN=%d' % (2 if name == 'reserve' else maxn), 'CHECK_' + prop],
                 min_obligations=10, functions=fns, strength='bounded',
                 canary=None if (ctx.tier == 'quick' and name == 'reserve') else 'CANARY', canary_label='canary',
-                bound='histories of <= %d reservations (+ slice, + releases) then one %s; sizes < 2^%d; alignment %d' % (maxn, name, bits, a),
+                bound='histories of <= %d reservations (+ slice, + releases) then one %s; sizes < 2^%d; alignment %d' % (2 if name == 'reserve' else maxn, name, bits, a),
                 object_bits=10, timeout=2400 if ctx.tier == 'quick' else 5400, ignore=r': (%s): ' % others,
                 checks=['--bounds-check', '--pointer-check', '--div-by-zero-check', '--undefined-shift-check', '--no-signed-overflow-check'],
                 param='alignment %d, operation %s' % (a, name), replay=replay_C03.replay))
